@@ -239,7 +239,12 @@ MonC07(S) ==
   UNION {
     LET cmds == SelectSeq(LinesAtt(S, "cmd", a), LAMBDA x : x.kind # "quit")
         sp   == SetPosFor(S, a)
-    IN IF Len(cmds) = 0 THEN {}      \* no connection was established in this attempt
+    IN IF Len(cmds) = 0
+       THEN \* no command reached the master: allowed only when no connection could be established (master down, handshake
+            \* refused) or the caller cancelled; a reachable master must be asked
+            (IF ~Plan(S, a).dead /\ Plan(S, a).connfault \notin {"handshake_close", "handshake_err"} /\ Len(LinesAtt(S, "cancel", a)) = 0
+                /\ Len(StreamRet(S, a)) = 1 /\ StreamRet(S, a)[1].returned /\ a < 1000
+             THEN {Z("C07.sequence", S, "Stream returned without sending any command to a reachable master", a, 0)} ELSE {})
        ELSE
         \* exactly one dump request and nothing after it (other queries before it are not forbidden); no dump at all only
         \* when the master rejected the SET or dropped the connection itself before the request could arrive
